@@ -101,6 +101,21 @@ CORE = [
   # two rules of one predicate listing the same named arguments in different orders (known finding)
   S('named_args_reordered', 'P(a: x, b: y) :- Q(x, y);\nP(b: x, a: y) :- Q(x, y);', {'Q': 2},
     {'P': lambda db: [(x, y) for (x, y) in db['Q']] + [(y, x) for (x, y) in db['Q']]}, cols={'P': ['a', 'b']}),
+  S('arith_nesting', 'P(x, y, -(x + y), -(x - y), x - (y - 1), x - (y + 1), x * (y + 1), (x + y) * (x - y), -(-x), '
+    '2 * (-x), -x * y, x - (-y), -(x * y) + 1, (x - y) - (y - x)) :- Q(x, y);', {'Q': 2},
+    {'P': lambda db: [(x, y, -(x + y), -(x - y), x - (y - 1), x - (y + 1), x * (y + 1), (x + y) * (x - y), -(-x),
+                       2 * -x, -x * y, x - -y, -(x * y) + 1, (x - y) - (y - x)) for (x, y) in db['Q']]},
+    domain=[-1, 0, 2, 3]),
+  # chained unnestings written out of dependency order
+  S('unnest_chain3', 'P(n, a, b, c) :- N(n), a in Range(n), c in Range(b), b in Range(a);\n'
+    'P2(a, c) :- N(n), c in [a, a + 1], a in Range(n);', {'N': 1},
+    {'P': lambda db: [(n, a, b, c) for (n,) in db['N'] for a in range(n) for b in range(a) for c in range(b)],
+     'P2': lambda db: [(a, c) for (n,) in db['N'] for a in range(n) for c in (a, a + 1)]},
+    tags=('C01', 'C07'), domain=[0, 2, 4]),
+  # a WITH-compiled predicate reached from two separately built queries (main + a grounded one)
+  S('with_two_parents', 'C(x) distinct :- Q(x, y), x > 0;\nB(x) distinct :- C(x);\n@Ground(G);\nG(x) :- B(x);\n'
+    'W(x) :- G(x), B(x);', {'Q': 2},
+    {'W': lambda db: [(x,) for x in {x for (x, y) in db['Q'] if x > 0}]}, tags=('C01', 'C08', 'C17')),
   # degenerate shapes: no table at all, constants only, single-fact predicates that get injected
   S('tableless', 'Threshold(5);\nSmall(x) :- Threshold(x), x < 3;\nBig(x) :- Threshold(x), x > 3;\n'
     'C(y) :- y == 2 + 2, y > 10;\nC2(y) :- y == 2 + 2, y < 10;\n'
@@ -191,6 +206,20 @@ AGG = [
                                            if a2 == _sum([y2 for (k2, y2) in db['Q'] if k2 == k])], sum))
                       for (k,) in db['A']]},
     tags=('C02', 'C07', 'C08'), max_rows={'quick': 2, 'thorough': 2}),
+  # the aggregated value mentions only outer variables; the body has a predicate
+  S('combine_outer_only_value', 'P(x, s) :- A(x), s == Sum{x :- Q(x, y)};\nP2(x, m) :- A(x), m Max= (x * 10 :- Q(x, y));\n'
+    'P3(x, c) :- A(x), c == Sum{1 :- Q(x, y)};', {'A': 1, 'Q': 2},
+    {'P': lambda db: [(x, _none_if_empty([x for (x2, y) in db['Q'] if x2 == x], sum)) for (x,) in db['A']],
+     'P2': lambda db: [(x, _none_if_empty([x * 10 for (x2, y) in db['Q'] if x2 == x], max)) for (x,) in db['A']],
+     'P3': lambda db: [(x, _none_if_empty([1 for (x2, y) in db['Q'] if x2 == x], sum)) for (x,) in db['A']]},
+    tags=('C02',)),
+  # distinct rules all of whose key columns are literals
+  S('distinct_literal_keys', 'T("total", s? += y) distinct :- Q(x, y), x > 1;\nH("big") distinct :- Q(x, y), y > 0;\n'
+    'L(label, s? += y) distinct :- Q(x, y), label == "all";', {'Q': 2},
+    {'T': lambda db: [('total', sum(y for (x, y) in db['Q'] if x > 1))] if [1 for (x, y) in db['Q'] if x > 1] else [],
+     'H': lambda db: [('big',)] if [1 for (x, y) in db['Q'] if y > 0] else [],
+     'L': lambda db: [('all', sum(y for (x, y) in db['Q']))] if db['Q'] else []},
+    tags=('C02',)),
   # a distinct (deduplicating) predicate read by a multiplicity-sensitive distinct caller
   S('distinct_callee_agg_caller', 'D(x) distinct :- Q(x, y);\nT(total? += x, biggest? Max= x) distinct :- D(x);\n'
     'N() += 1 :- D(x);', {'Q': 2},
@@ -354,6 +383,23 @@ SUGAR = [
      'SI': lambda db: [(x,) for (x,) in db['A'] if all(not _negB(db, y) for (x2, y) in db['Q'] if x2 == x)],
      'LI': lambda db: [(x,) for (x,) in db['A'] if all(not _negB(db, y) for (x2, y) in db['Q'] if x2 == x)]},
     tags=('C11',), max_rows={'quick': 2, 'thorough': 2}),
+  S('sugar_implication_conj', 'S(x) :- A(x), (Q(x, y) => (B(y), C(y)));\nL(x) :- A(x), ~(Q(x, y), ~(B(y), C(y)));\n'
+    'S2(x) :- A(x), ((Q(x, y), B(y)) => C(y));\nL2(x) :- A(x), ~(Q(x, y), B(y), ~C(y));',
+    {'A': 1, 'B': 1, 'C': 1, 'Q': 2},
+    {'S': lambda db: [(x,) for (x,) in db['A'] if all((y,) in db['B'] and (y,) in db['C'] for (x2, y) in db['Q'] if x2 == x)],
+     'L': lambda db: [(x,) for (x,) in db['A'] if all((y,) in db['B'] and (y,) in db['C'] for (x2, y) in db['Q'] if x2 == x)],
+     'S2': lambda db: [(x,) for (x,) in db['A'] if all((y,) in db['C'] for (x2, y) in db['Q'] if x2 == x and (y,) in db['B'])],
+     'L2': lambda db: [(x,) for (x,) in db['A'] if all((y,) in db['C'] for (x2, y) in db['Q'] if x2 == x and (y,) in db['B'])]},
+    tags=('C11', 'C02'), max_rows={'quick': 1, 'thorough': 2}, domain=[0, 1], cap={'quick': 300, 'thorough': 3000}),
+  S('sugar_in_computed_lhs', 'S(x) :- A(x), x * x in [x, 1];\nL(x) :- A(x), (x * x == x | x * x == 1);\n'
+    'S2(x, y) :- Q(x, y), x + y in [2, x * 2, 2];\nL2(x, y) :- Q(x, y), (x + y == 2 | x + y == x * 2 | x + y == 2);\n'
+    'S3(x, c) :- A(x), c == Sum{1 :- 1 in [x, x * x]};', {'A': 1, 'Q': 2},
+    {'S': lambda db: [(x,) for (x,) in db['A'] for c in (x, 1) if x * x == c],
+     'L': lambda db: [(x,) for (x,) in db['A'] for c in (x, 1) if x * x == c],
+     'S2': lambda db: [(x, y) for (x, y) in db['Q'] for c in (2, x * 2, 2) if x + y == c],
+     'L2': lambda db: [(x, y) for (x, y) in db['Q'] for c in (2, x * 2, 2) if x + y == c],
+     'S3': lambda db: [(x, _none_if_empty([1 for c in (x, x * x) if c == 1], sum)) for (x,) in db['A']]},
+    tags=('C11', 'C01')),
   S('sugar_combine', 'C1(x, m) :- A(x), m Max= (y :- Q(x, y));\nC2(x, m) :- A(x), m == Max{y :- Q(x, y)};\n'
     'C3(x, m) :- A(x), m == (combine Max= y :- Q(x, y));', {'A': 1, 'Q': 2},
     {'C1': _maxq, 'C2': _maxq, 'C3': _maxq}, tags=('C11',)),
@@ -402,6 +448,14 @@ def _tri_step(db, bound):
     return {'A': sorted(set(db['Z']) | up(st['B']) | up(st['C'])),
             'B': sorted(up(st['A']) | up(st['C'])),
             'C': sorted(up(st['A']) | up(st['B']))}
+  return step
+
+
+def _wl_step(db):
+  def step(st):
+    pos = {x for (x, y) in db['E']} | {y for (x, y) in db['E']}
+    return {'Win': sorted({(x,) for (x, y) in db['E'] if (y,) in st['Lose']}),
+            'Lose': sorted({(x,) for x in pos if (x,) not in st['Win']})}
   return step
 
 
@@ -471,6 +525,22 @@ RECURSION = [
     {'Even': lambda db: sorted({(x + k,) for (x,) in db['Z'] for k in range(0, 24, 2)}),
      'Odd': lambda db: sorted({(x + k,) for (x,) in db['Z'] for k in range(1, 24, 2)})},
     tags=('C03', 'C14'), workflow=True, max_rows={'quick': 1, 'thorough': 1}, together=True),
+  # recursion through negation (a non-monotone operator is still iterated depth+1 times from empty)
+  S('rec_negation_win', 'Win(x) distinct :- E(x, y), ~Win(y);', {'E': 2},
+    {'Win': lambda db: iterate(lambda st: {'Win': sorted({(x,) for (x, y) in db['E'] if (y,) not in st['Win']})}, 9, ['Win'])['Win']},
+    tags=('C03',), max_rows={'quick': 3, 'thorough': 4}, cap={'quick': 120, 'thorough': 1500}),
+  # the @Recursive annotation sits on a member that is not the first of its component
+  S('rec_triangle_annotated_last', '@Recursive(C, 2);\nA(x) distinct :- Z(x);\nA(x + 1) distinct :- B(x), x < 9;\n'
+    'A(x + 1) distinct :- C(x), x < 9;\nB(x + 1) distinct :- A(x), x < 9;\nB(x + 1) distinct :- C(x), x < 9;\n'
+    'C(x + 1) distinct :- A(x), x < 9;\nC(x + 1) distinct :- B(x), x < 9;', {'Z': 1},
+    {'A': lambda db: iterate(_tri_step(db, 9), 3, 'ABC')['A'],
+     'C': lambda db: iterate(_tri_step(db, 9), 3, 'ABC')['C']},
+    tags=('C03',), domain=[0, 2]),
+  S('rec_chain_annotated_second', '@Recursive(Odd, 12);\nEven(x) distinct :- Z(x);\nEven(x + 1) distinct :- Odd(x), x < 12;\n'
+    'Odd(x + 1) distinct :- Even(x), x < 12;', {'Z': 1},
+    {'Even': lambda db: iterate(_eo_step(db, 12), 30, ['Even', 'Odd'])['Even'],
+     'Odd': lambda db: iterate(_eo_step(db, 12), 30, ['Even', 'Odd'])['Odd']},
+    tags=('C03',), domain=[0]),
   # iterative execution requested explicitly for a small depth (known finding: overshoots)
   S('rec_iter_forced_depth2', '@Recursive(N, 2, iterative: true);\nN(x) distinct :- Z(x);\nN(x + 1) distinct :- N(x);',
     {'Z': 1}, {'N': lambda db: sorted({(x + k,) for (x,) in db['Z'] for k in range(3)})},
@@ -506,6 +576,25 @@ FUNCTORS = [
      'G': lambda db: [(x,) for (x,) in db['Z'] for (w,) in db['W'] if w == x] + list(db['W']),
      'A2': lambda db: [(x,) for (x,) in db['Z'] for (w,) in db['V'] if w == x] + list(db['V'])},
     tags=('C04',), max_rows={'quick': 1, 'thorough': 2}, domain=[0, 1], cap={'quick': 200, 'thorough': 1500}),
+  # bindings whose values are also arguments (swap / shift): the substitution is simultaneous
+  S('functor_swap', 'Diff(x) :- A(x), ~B(x);\nSwap := Diff(A: B, B: A);\nShift := Diff(A: B, B: C);', {'A': 1, 'B': 1, 'C': 1},
+    {'Diff': lambda db: [(x,) for (x,) in db['A'] if (x,) not in db['B']],
+     'Swap': lambda db: [(x,) for (x,) in db['B'] if (x,) not in db['A']],
+     'Shift': lambda db: [(x,) for (x,) in db['B'] if (x,) not in db['C']]},
+    tags=('C04',), max_rows={'quick': 2, 'thorough': 2}, cap={'quick': 150, 'thorough': 1500}),
+  # a functor result used at distance two by a later application
+  S('functor_distance_two', 'K(x) :- A(x);\nCc(x + 1) :- K(x);\nD := Cc(A: Z);\nEe(x) :- D(x);\n'
+    'G(x) :- Ee(x) | Z(x);\nH := G(Z: W);', {'A': 1, 'Z': 1, 'W': 1},
+    {'D': lambda db: [(x + 1,) for (x,) in db['Z']], 'G': lambda db: [(x + 1,) for (x,) in db['Z']] + list(db['Z']),
+     'H': lambda db: [(x + 1,) for (x,) in db['W']] + list(db['W'])},
+    tags=('C04',), max_rows={'quick': 2, 'thorough': 2}, cap={'quick': 150, 'thorough': 1500}),
+  # the functor reaches another made predicate only through an intermediate; names sort adversarially
+  S('functor_indirect_made', 'G(x + 1000) :- Y(x);\nM := G(Y: X);\nHh(x) :- M(x);\nF(x) :- Hh(x) | X(x);\nB := F(X: A2);',
+    {'X': 1, 'Y': 1, 'A2': 1},
+    {'M': lambda db: [(x + 1000,) for (x,) in db['X']],
+     'F': lambda db: [(x + 1000,) for (x,) in db['X']] + list(db['X']),
+     'B': lambda db: [(x + 1000,) for (x,) in db['A2']] + list(db['A2'])},
+    tags=('C04', 'C07'), max_rows={'quick': 2, 'thorough': 2}, cap={'quick': 150, 'thorough': 1500}),
   S('functor_constant_arg', 'Lim() = 0;\nP(x) :- A(x), x > Lim();\nQ := P(Lim: 1);\nR := P(Lim: 1);', {'A': 1},
     {'P': lambda db: [(x,) for (x,) in db['A'] if x > 0], 'Q': lambda db: [(x,) for (x,) in db['A'] if x > 1],
      'R': lambda db: [(x,) for (x,) in db['A'] if x > 1]}, tags=('C04',)),
